@@ -7,19 +7,21 @@ V=${VERIF_HOME:-/verif}
 R=${VERIF_REPO:-/repo}
 B=${VERIF_BUILD:-$V/.build}
 mkdir -p $B/mod
+rm -rf $B/src && mkdir -p $B/src && cp -r $V/sim $B/src/sim && cp -r $V/glue $B/src/glue
+V_SRC=$B/src
 cp $R/go.mod $B/mod/go.mod
 cp $R/go.sum $B/mod/go.sum
 cat >> $B/mod/go.mod <<EOM
 
 require verif/sim v0.0.0
 require pgregory.net/rapid v1.3.0
-replace verif/sim => $V/sim
-replace github.com/github/go-pipe => $V/sim/third_party/go-pipe
+replace verif/sim => $V_SRC/sim
+replace github.com/github/go-pipe => $V_SRC/sim/third_party/go-pipe
 EOM
 {
   echo '{"Replace":{'
   first=1
-  for f in $V/glue/*.go; do
+  for f in $V_SRC/glue/*.go; do
     [ $first = 1 ] || echo ','
     first=0
     echo "\"$R/$(basename $f)\":\"$f\""
